@@ -114,6 +114,9 @@ def c09(tier):
                 ck.violation("REST expand differs from the engine's tree", dict(cid, rest_status=ob["rest_status"], rest=ob.get("rest"), engine=tr))
             if ob.get("grpc") is None or norm(ob["grpc"]) != norm(tr):
                 ck.violation("gRPC expand differs from the engine's tree", dict(cid, grpc_status=ob["grpc_status"], grpc=ob.get("grpc"), engine=tr))
+            elif ob.get("grpc_client") is None or norm(ob["grpc_client"]) != norm(tr):
+                ck.violation("the gRPC expand reply decoded with ketoapi.TreeFromProto differs from the engine's tree",
+                             dict(cid, decoded=ob.get("grpc_client"), error=ob.get("grpc_client_err"), engine=tr))
     for f in known.values():
         if f["id"] not in ck.known_hits and not ck.violations:
             raise Inconclusive("known finding %s did not reproduce: remove it from known_findings.json" % f["id"])
@@ -121,6 +124,22 @@ def c09(tier):
     ck.exhaustive = not p["sample"]
     import p_reconf
     p_reconf.reconf(ck, binary, tier, "C09")
+    # expands of ONE subject set with different max-depth values in flight together: each must get the tree it gets alone
+    import p_check
+    from p_api import QUERIES, STATES
+    dck = Check("C09", tier)
+    defs, _ = p_check.oracle("quick", ["rw"], dck, sample=1, ords=1)
+    ck.states += dck.states; ck.transitions += dck.transitions
+    rounds = 32 if tier == "quick" else 256
+    cin = {"def": defs["rw"], "states": [s for s in STATES if s], "queries": [q for q, c in QUERIES if c == "valid"], "rounds": rounds, "par": 24, "only": "expand"}
+    crecs = [x for x in run_harness(binary, "conc", cin, shards=8) if "round" in x]
+    if len(crecs) < rounds // 2:
+        raise Inconclusive("only %d of %d concurrent expand rounds ran" % (len(crecs), rounds // 2))
+    for x in crecs:
+        ck.evaluations += x["requests"]
+        for d in x["diffs"] or []:
+            ck.violation("an expand answered differently when expands of the same subject set with other max-depth values were in flight", dict(d, round=x["round"]))
+    ck.extra["concurrent_expand_rounds"] = len(crecs)
     ck.rule = ("all subsets of a 10-tuple universe (chain, diamond, cycles, self-loop, duplicate) x storage orders x depths, plus nodes with 99..201 children; "
                "the real tree is checked against the property operators' inputs printed by TLC (stored tuples, reachable-within-depth, reachable); "
                "non-trivial: >= 3 stored tuples and depth >= 3")
